@@ -252,6 +252,12 @@ StringDictionaryHASHHF::StringDictionaryHASHHF(IteratorDictString *it, uint len,
   hash->finish(bytesStrings);
 
   delete builder;
+
+  // As load() does: the hash compares against the encoded text, and the
+  // coder built for encoding knows nothing about the decoding table
+  hash->setData(textStrings);
+  delete coder;
+  coder = new StatCoder(table, codewords);
 }
 
 unsigned long StringDictionaryHASHHF::locate(uchar *str, uint strLen) {
